@@ -170,11 +170,11 @@ theorem tauleap_means_only_for_neighbours (e : EngIn) (dt : Rat) (x : State) :
 /-- the wrappers return 0 before constructing the distribution when `lambda ≤ 0`; the three constructions in
 engine.cpp are guarded by `> 0`; there is no other construction in the sources -/
 theorem poisson_guards_text :
-    Gen.poissonBodyGrid = "if(lambda<=0)return0;returnstd::poisson_distribution<int>(lambda)(rng);" ∧
+    Gen.poissonBodyGrid = "if(lambda<=0)return0;returnstd::poisson_distribution<longlong>(lambda)(rng);" ∧
     Gen.poissonBodyGraph = Gen.poissonBodyGrid ∧
     Gen.initPoissonSites = ["(mesh_x[i]>0)?std::poisson_distribution<int>(mesh_x[i])(rng):0",
-      "(mesh_state[i]>0)?static_cast<double>(std::poisson_distribution<int>(mesh_state[i])(rng)):0",
-      "(mesh_state[i]>0)?static_cast<double>(std::poisson_distribution<int>(mesh_state[i])(rng)):0"] ∧
+      "(mesh_state[i]>0)?static_cast<double>(std::poisson_distribution<longlong>(mesh_state[i])(rng)):0",
+      "(mesh_state[i]>0)?static_cast<double>(std::poisson_distribution<longlong>(mesh_state[i])(rng)):0"] ∧
     Gen.poissonMentions = 5 := ⟨rfl, rfl, rfl, rfl⟩
 
 /-- the model's `Poisson(lambda)` consumes a draw exactly for the positive means -/
